@@ -10,8 +10,8 @@ package props
 // death at that point leaves behind.
 
 import (
-	"encoding/hex"
 	"bytes"
+	"encoding/hex"
 	"encoding/json"
 	"fmt"
 	"os"
